@@ -1620,7 +1620,17 @@ impl DnsOutPacket {
     }
 
     fn write_utf8(&mut self, s: &str) {
-        assert!(s.len() < 64);
+        // A DNS label holds at most 63 bytes. Names learned from the network are
+        // kept in an unescaped form, so a received label that ends in a backslash
+        // or contains dots can come back here merged with its neighbour. Never
+        // panic on such input: cut the label (at a character boundary) instead.
+        const LABEL_LEN_MAX: usize = 63;
+        let mut end = s.len().min(LABEL_LEN_MAX);
+        while !s.is_char_boundary(end) {
+            end -= 1;
+        }
+        let s = &s[..end];
+
         self.write_byte(s.len() as u8);
         self.write_bytes(s.as_bytes());
     }
